@@ -53,7 +53,18 @@ Inductive case :=
 (* a case of the input class of the known finding cs-invalid-utf8 (case-sensitive, keyword/path value or
    cut prefix not valid UTF-8) on which the driver saw the finding (query not found) and reported it
    itself under that fingerprint: the model must still agree; the spec verdict is not asked again *)
-| CKnown (inner : case).
+| CKnown (inner : case)
+(* the in(...) form: field of type t (is_ex: the field is `_exists_`), parser configured with case
+   sensitivity sens; ms = the strings the members unquote to, the k-th is a value the property says must be
+   found; plain = literals the real parser returned for the plain form `f:<literal of ms[k]>`; inls = for
+   `f:in(m1, .., mn)` the literals of every member of the OR (None = error / other shape); toks = the index
+   tokens of the field; found = verdict of the real matcher for the in-query (some member finds) *)
+| CIn (t : ttype) (is_ex sens : bool) (ms : list (list N)) (k : nat)
+      (plain : option (list (list term))) (inls : option (list (list (list term))))
+      (toks : list (list N)) (found : bool)
+(* the range form `f:[<lit of s> to <lit of s>]` on a keyword/path/`_exists_` field: the two bound terms *)
+| CRange (is_ex sens : bool) (s : list N) (plain : option (list (list term)))
+         (bounds : option (term * term)) (toks : list (list N)) (found : bool).
 
 Definition q_str (q : qobs) := fst (fst q).
 Definition q_lits (q : qobs) := snd (fst q).
@@ -77,6 +88,20 @@ Fixpoint case_agrees (c : case) : bool :=
       && match lits with Some ls => implb (query_finds ls [title]) found | None => negb found end
   | CDoc m c doc metas => list_eqb (list_eqb token_eqb) (m_doc_metas m c doc) metas
   | CKnown inner => case_agrees inner
+  | CIn t is_ex sens ms k plain inls toks found =>
+      let e := eff_sens is_ex sens in
+      option_eqb (list_eqb lits_eqb) (query_in go_is_letter go_is_number go_to_lower t e ms) inls
+      && option_eqb lits_eqb (match nth_error ms k with Some s => m_query t e s | None => None end) plain
+      && match inls with Some members => Bool.eqb (in_finds members toks) found | None => negb found end
+  | CRange is_ex sens s plain bounds toks found =>
+      let e := eff_sens is_ex sens in
+      option_eqb lits_eqb (m_query TyKeyword e s) plain
+      && option_eqb (pair_eqb term_eqb term_eqb)
+           (match range_term go_to_lower e s with Some t => Some (t, t) | None => None end) bounds
+      && match bounds with
+         | Some (f, t) => implb (range_finds f t toks) found   (* numeric ranges may find more *)
+         | None => negb found
+         end
   end.
 
 (* the fields of a document as the property describes them (executable form of [reach]): into objects, tag
@@ -152,6 +177,22 @@ Definition case_spec_ok (c : case) : bool :=
                (snd (mlookup m (fst fx)))) (reach_list m [] doc)
       end
   | CKnown _ => true
+  (* form independence on the real ASTs: the member made from the value is the plain form's literals, and
+     the in-query finds the document *)
+  | CIn t is_ex sens ms k plain inls toks found =>
+      found
+      && match plain, inls with
+         | Some p, Some members =>
+           match nth_error members k with Some l => lits_eqb l p | None => false end
+           && Nat.eqb (length members) (length ms)
+         | _, _ => false
+         end
+  | CRange is_ex sens s plain bounds toks found =>
+      found
+      && match plain, bounds with
+         | Some [[p]], Some (f, t) => term_eqb f p && term_eqb t p
+         | _, _ => false
+         end
   end.
 
 Definition diff_indices (l : list case) : list nat := bad_indices (fun c => negb (case_agrees c)) l.
